@@ -1,0 +1,7 @@
+//go:build verif
+
+// Contracts for the deductive verifier under /verif (comment-only file).
+package sse
+
+//@ func Use assumed "loader.WrapGoC installs the pre-assembled text and stores entry addresses into this package's own S_*/F_* variables only"
+//@   modifies globals(sse)
